@@ -93,15 +93,22 @@ class ErrFact(Exception):
 
 
 class ErrInstF(Exception):
-    """Variant (prog["errfalsy"]): the configured error objects are FALSY (an exception type with __bool__ / __len__)."""
+    """Variant (prog["errfalsy"]): the configured error objects are FALSY (an exception type with __bool__ / __len__) and
+    compared by value (__eq__ without __hash__: they are UNHASHABLE, as a dataclass exception is)."""
 
     def __bool__(self) -> bool:
         return False
+
+    def __eq__(self, other: Any) -> bool:
+        return self is other
 
 
 class ErrFactF(Exception):
     def __len__(self) -> int:
         return 0
+
+    def __eq__(self, other: Any) -> bool:
+        return self is other
 
 
 class ErrInstB(BaseException):
